@@ -657,28 +657,51 @@ class _MissingImportFinder:
     def visit_ClassDef(self, node):
         logger.debug("visit_ClassDef(%r)", node)
         if sys.version_info > (3,12):
-            # we don't visit type_params, so autoimport won't work yet for type annotations
             assert node._fields == ('name', 'bases', 'keywords', 'body', 'decorator_list', 'type_params'), node._fields
         else:
             assert node._fields == ('name', 'bases', 'keywords', 'body', 'decorator_list'), node._fields
-        self.visit(node.bases)
-        self.visit(node.decorator_list)
-        # The class's name is only visible to others (not to the body to the
-        # class), but is accessible in the methods themselves. See https://github.com/deshaw/pyflyby/issues/147
-        self.visit(node.keywords)
+        type_params = getattr(node, "type_params", None)
+        # The type parameters of 'class A[T: Bound](Base[T])' are visible to
+        # the bases, the keywords and the body, but not outside the class.
+        with (self._NewScopeCtx() if type_params else contextlib.nullcontext()):
+            self._visit_type_params(type_params)
+            self.visit(node.bases)
+            self.visit(node.decorator_list)
+            # The class's name is only visible to others (not to the body to the
+            # class), but is accessible in the methods themselves. See https://github.com/deshaw/pyflyby/issues/147
+            self.visit(node.keywords)
 
-        # we only care about the first defined class,
-        # we don't detect issues with nested classes.
-        if self._in_class_def == 0:
-            self.scopestack._class_delayed[node.name] = None
-        with self._NewScopeCtx(new_class_scope=True):
-            self._in_class_def += 1
-            self._visit_Store(node.name)
-            self.visit(node.body)
-            self._in_class_def -= 1
-        assert self._in_class_def >= 0
+            # we only care about the first defined class,
+            # we don't detect issues with nested classes.
+            if self._in_class_def == 0:
+                self.scopestack._class_delayed[node.name] = None
+            with self._NewScopeCtx(new_class_scope=True):
+                self._in_class_def += 1
+                self._visit_Store(node.name)
+                self.visit(node.body)
+                self._in_class_def -= 1
+            assert self._in_class_def >= 0
         self._remove_from_missing_imports(node.name)
         self._visit_Store(node.name)
+
+    def _visit_type_params(self, type_params):
+        # PEP 695 type parameters: the bound (and default) can read names;
+        # the parameter's own name is bound in the enclosing annotation scope.
+        for type_param in type_params or ():
+            for field in ("bound", "default_value"):
+                value = getattr(type_param, field, None)
+                if value is not None:
+                    self.visit(value)
+        for type_param in type_params or ():
+            self._visit_Store(type_param.name)
+
+    if sys.version_info >= (3, 12):
+        def visit_TypeAlias(self, node):
+            # 'type X[T: Bound] = value'
+            with self._NewScopeCtx():
+                self._visit_type_params(node.type_params)
+                self.visit(node.value)
+            self.visit(node.name)
 
     def visit_AsyncFunctionDef(self, node):
         return self.visit_FunctionDef(node)
@@ -692,27 +715,33 @@ class _MissingImportFinder:
         #   - Store the name in the current scope (but not visibly to
         #     args/decorator_list).
         if sys.version_info > (3, 12):
-            # we don't visit type_params, so autoimport won't work yet for type annotations
             assert node._fields ==  ('name', 'args', 'body', 'decorator_list', 'returns', 'type_comment', 'type_params'), node._fields
         else:
             assert node._fields ==  ('name', 'args', 'body', 'decorator_list', 'returns', 'type_comment'), node._fields
-        with self._NewScopeCtx(include_class_scopes=True):
-            # we want `__class__` to only be defined in
-            # methods and not class body
-            if self._in_class_def:
-                self.scopestack[-1]["__class__"] = None  # we just need to to be defined
-            self.visit(node.decorator_list)
-            self.visit(node.args)
-            if node.returns:
-                self.visit(node.returns)
-            self._visit_typecomment(node.type_comment)
-            old_in_FunctionDef = self._in_FunctionDef
-            self._in_FunctionDef = True
-            with self._NewScopeCtx(unhide_classdef=True):
-                if not self._in_class_def:
-                    self._visit_Store(node.name)
-                self.visit(node.body)
-            self._in_FunctionDef = old_in_FunctionDef
+        type_params = getattr(node, "type_params", None)
+        # The type parameters of 'def f[T: Bound](a: T) -> T' live in a scope
+        # of their own around the function: visible to the annotations, the
+        # defaults and the body, but not outside.
+        with (self._NewScopeCtx(include_class_scopes=True) if type_params
+              else contextlib.nullcontext()):
+            self._visit_type_params(type_params)
+            with self._NewScopeCtx(include_class_scopes=True):
+                # we want `__class__` to only be defined in
+                # methods and not class body
+                if self._in_class_def:
+                    self.scopestack[-1]["__class__"] = None  # we just need to to be defined
+                self.visit(node.decorator_list)
+                self.visit(node.args)
+                if node.returns:
+                    self.visit(node.returns)
+                self._visit_typecomment(node.type_comment)
+                old_in_FunctionDef = self._in_FunctionDef
+                self._in_FunctionDef = True
+                with self._NewScopeCtx(unhide_classdef=True):
+                    if not self._in_class_def:
+                        self._visit_Store(node.name)
+                    self.visit(node.body)
+                self._in_FunctionDef = old_in_FunctionDef
         self._visit_Store(node.name)
 
     def visit_Lambda(self, node):
